@@ -172,6 +172,10 @@ def main():
                 ck.note("rewrite_with_differential_privacy panics on `%s` (%s): %s" % (sql, pun, ans["panic"]))
             continue
         rel, orig = ans["ok"]["rewritten"], ans["ok"]["original"]
+        prot = {t["table"] for t in pus[pun]["tables"]}
+        if len({p_[0] for p_ in symrel.tables_of(orig)} & {"users", "orders", "items"}) > 1 and not ({p_[0] for p_ in symrel.tables_of(orig)} & {"users", "orders", "items"}) <= prot:
+            stats["outside_pu_path"] = stats.get("outside_pu_path", 0) + 1
+            continue   # a join with a table this definition does not protect is not a join along the privacy-unit path
         if not dpir.noise_maps(rel):
             continue   # nothing was noised (public query)
         if dpir.epsilon_deltas(ans["ok"]["dp_event"]):
